@@ -89,6 +89,12 @@ theorem Item.events_fn_iff (pre : List Name) (it : Item) (pre' : List Name) (pub
     cases hd with
     | here hm => simp at hm
     | inside hm _ => simp at hm
+  | letD p y e =>
+    simp only [Item.events, List.mem_singleton, reduceCtorEq, false_iff]
+    rintro ⟨rest, _, _, hd⟩
+    cases hd with
+    | here hm => simp at hm
+    | inside hm _ => simp at hm
   | mod mp m sub =>
     simp only [Item.events, List.mem_cons, reduceCtorEq, false_or]
     rw [eventsL_fn_iff]
@@ -186,6 +192,7 @@ def Expr.plain : Expr → Bool
 def bodiesPlain : List Ev → Bool
   | [] => true
   | .fn _ _ _ _ b :: rest => b.plain && bodiesPlain rest
+  | .letS _ _ _ e :: rest => e.plain && bodiesPlain rest
   | _ :: rest => bodiesPlain rest
 
 theorem collectDefined_plain (e : Expr) (h : e.plain = true) : ∀ s ∈ collectDefined e, s.length = 1 := by
@@ -235,6 +242,7 @@ theorem mem_fnDecls_iff (evs : List Ev) (s : Sym) :
         · exact Or.inr ⟨pre', pub', x', ps', b', hm, rfl⟩
     | modOpen pre x => simpa [fnDecls] using ih
     | use pre pub path t => simpa [fnDecls] using ih
+    | letS pre pub x e => simpa [fnDecls] using ih
 
 /-- a name with a module part passes `name_exists` iff the flattening emitted a `LetRec` for it -/
 theorem known_multi_iff (evs : List Ev) (hp : bodiesPlain evs = true) (s : Sym) (hs : 2 ≤ s.length) :
@@ -258,6 +266,15 @@ theorem known_multi_iff (evs : List Ev) (hp : bodiesPlain evs = true) (s : Sym) 
         · exact Or.inr (Or.inr h)
     | modOpen pre x => simpa [chain, fnDecls, bodiesPlain] using ih (by simpa [bodiesPlain] using hp)
     | use pre pub path t => simpa [chain, fnDecls, bodiesPlain] using ih (by simpa [bodiesPlain] using hp)
+    | letS pre pub x e =>
+      simp only [bodiesPlain, Bool.and_eq_true] at hp
+      simp only [chain, collectDefined, fnDecls, List.mem_cons, List.mem_append, ih hp.2]
+      constructor
+      · rintro (h | h | h)
+        · subst h; simp at hs
+        · have := collectDefined_plain e hp.1 s h; omega
+        · exact h
+      · exact fun h => Or.inr (Or.inr h)
 
 theorem Denotes.ne_nil {items : List Item} {s : List Name} {pub : Bool} {ps : List Name} {b : Expr}
     (h : Denotes items s pub ps b) : s ≠ [] := by
